@@ -1,7 +1,9 @@
 (* C03 - Generated values always satisfy the generator's contract, for every bitstream.  Statements only. *)
 From Coq Require Import NArith ZArith List Lia.
 Require Import Rapid.Model.Base Rapid.Model.Syntax Rapid.Model.Monad Rapid.Model.Prim.
-Require Import Rapid.Proofs.IntProofs Rapid.Proofs.RepeatProofs.
+Require Import Rapid.Model.Interp Rapid.Model.Engine.
+Require Import Rapid.Proofs.IntProofs Rapid.Proofs.RepeatProofs Rapid.Proofs.Contract Rapid.Proofs.Termination.
+Import ListNotations.
 Local Open Scope N_scope.
 
 (* unsigned ranges: whatever the state (any buffer of 64-bit words, the PRNG from any seed), whatever the
@@ -27,3 +29,43 @@ Theorem C03_index :
   forall geom fuel n bias s i, res (genIndex geom fuel n bias s) = Ok i -> (i < n)%nat.
 Proof. exact genIndex_lt_any. Qed.
 Print Assumptions C03_index.
+
+(* The whole generator-expression language, arbitrarily nested (OneOf, Ptr, SliceOfN / SliceOfNDistinct, MapOfN,
+   MapOfNValues, Permutation, Filter, Map, Custom, Deferred over Bool / unsigned / signed / SampledFrom leaves):
+   whatever the state (any buffer of 64-bit words or the PRNG from any seed), any bias oracle, any fuel, any
+   cleanup runner - a returned value satisfies `contract` (Proofs/Contract.v: bounds, membership, length limits
+   when minLen <= maxLen, distinct keys as NoDup, permutation of the input, the filter predicate, non-nil unless
+   nil is allowed).  wf_g = the numeric side conditions the constructors enforce (ranges inside the type). *)
+Theorem C03_contract :
+  forall geom LF crun g, wf_g g -> forall s v, res (run_g geom LF crun g s) = Ok v -> contract g v.
+Proof. exact contract_holds. Qed.
+Print Assumptions C03_contract.
+
+(* non-vacuity: a nested generator over type-extreme ranges is well-formed, and a concrete buffer makes it
+   return both int64 extremes *)
+Example C03_nonvacuous_wf : wf_g Contract.ex_g.
+Proof. exact Contract.ex_g_wf. Qed.
+Example C03_nonvacuous_run :
+  res (run_g Contract.ex_geom 100 (fun _ => ret VU) Contract.ex_g (mkSt (SBuf Contract.ex_buf) fresh_t))
+  = Ok (VL (cons (VZ (-9223372036854775808)) (cons (VZ 9223372036854775807) (cons (VZ 5) nil)))).
+Proof. exact Contract.ex_run_buf. Qed.
+
+(* "never loops forever": on a finite bitstream (minimization, fail files, fuzzing) no loop of the generators
+   spins - every iteration of every rejection / repeat loop consumes a word or ends the run, so the fuel that
+   stands for "unbounded" in the model is never what ends a run once it exceeds the stream length.
+   (cleanup_free: the model's cleanup stack shares the same fuel; see C03_fuel_means_many_cleanups.) *)
+Theorem C03_no_spinning_on_finite_stream :
+  forall geom LF crun g s l,
+    cleanup_free_g g -> src s = SBuf l -> (length l < LF)%nat -> res (run_g geom LF crun g s) <> Err XFuel.
+Proof. intros geom LF crun g s l. exact (no_fuel_on_buffer geom LF crun g s l). Qed.
+Print Assumptions C03_no_spinning_on_finite_stream.
+
+(* whole test cases, with cleanups nested to any depth lvl: the only way fuel ends a run on a finite stream is
+   LF or more cleanup registrations (the real loop just drains that finite slice) *)
+Theorem C03_fuel_means_many_cleanups :
+  forall geom LF lvl p l,
+    depth_le lvl p -> (length l < LF)%nat ->
+    res (checkOnce geom LF lvl p (start (SBuf l))) = Err XFuel ->
+    (LF <= nreg (tr (w (checkOnce geom LF lvl p (start (SBuf l))))))%nat.
+Proof. exact fuel_checkOnce_reg. Qed.
+Print Assumptions C03_fuel_means_many_cleanups.
